@@ -1,11 +1,11 @@
-(* Property C03 -- theorems only. Closed by `exact` of lemmas of RG.Engine.RenderSpec (generic, hand-modelled loop of
-   renderMessage; tied to the code by the correspondence runs) and of Inst_Render.v (about nodeText's in-range test and
-   the report-path facts REGENERATED from /repo on this run). *)
+(* Property C03 -- theorems only. Closed by `exact` of lemmas of RG.Engine.RenderSpec / RenderLoop (generic), of
+   Inst_Render.v (about nodeText's in-range test and the report-path facts REGENERATED from /repo on this run) and of
+   Inst_RenderLoop.v (about the scanning loop of renderMessage TRANSLATED from /repo on this run). *)
 From Coq Require Import List ZArith Lia Bool Arith Permutation String.
 From RG.Base Require Import Outcome GoInt GoSlice.
 From RG.Regex Require Import Utf8.
-From RG.Engine Require Import TruncateSpec RenderSpec.
-From RGW Require Import Gen_C03 Inst_Render.
+From RG.Engine Require Import TruncateSpec RenderSpec RenderLoop.
+From RGW Require Import Gen_C03 Inst_Render Gen_C03Loop Def_RenderLoop Inst_RenderLoop.
 Import ListNotations.
 Local Open Scope Z_scope.
 
@@ -71,8 +71,31 @@ Theorem C03_rule_line_is_alternative_line :
 Proof. exact rule_line_is_alternative_line. Qed.
 Print Assumptions C03_rule_line_is_alternative_line.
 
+(* the scanning loop of renderMessage AS TRANSLATED FROM THE SOURCE on this run, started from the translated initial state,
+   computes the interpolation with the first-prefix lookup over the capture list it is given: for every template, every
+   capture list (any representation N of nodes, any nodeText / fixedText / truncateText), with or without truncation;
+   it never indexes the template out of range (the result is Ok) *)
+Theorem C03_scan_loop_is_interp :
+  forall (N : Type) (m_Node : N) (nodeText : N -> bytes) (fixedText : bytes -> N -> bytes -> bytes) (truncateText : bytes -> Z -> bytes)
+         (truncateLen : Z) (truncate : bool) (msg : bytes) (capture : list (bytes * N)) (fuel : nat),
+  (List.length msg < fuel)%nat ->
+  exists i, for_loop fuel (gen_renderMessage_body m_Node nodeText fixedText truncateText truncateLen msg capture truncate) (0, [])
+            = Ok (i, interp gcname (gcval nodeText fixedText truncateText truncateLen truncate)
+                            (gwhole m_Node nodeText fixedText truncateText truncateLen truncate)
+                            (first_prefix gcname capture) (S (List.length msg)) msg).
+Proof. intros N. exact (@gen_scan_is_interp N). Qed.
+Print Assumptions C03_scan_loop_is_interp.
+
+(* hence renderMessage with the translated loop (captures sorted by name length in front of it) IS the model the other
+   theorems speak about, on all inputs *)
+Theorem C03_translated_render_is_model :
+  forall trunc caps whole_text whole_fixable msg,
+  gen_render_msg trunc caps whole_text whole_fixable msg = Ok (render_msg trunc caps whole_text whole_fixable msg).
+Proof. exact gen_render_msg_is_render_msg. Qed.
+Print Assumptions C03_translated_render_is_model.
+
 (* the statements of runner.go / ir_loader.go that the report model mirrors are the ones in the source today *)
-Theorem C03_report_path_facts : forallb snd gen_c03_facts = true /\ (28 <= List.length gen_c03_facts)%nat.
+Theorem C03_report_path_facts : forallb snd gen_c03_facts = true /\ (23 <= List.length gen_c03_facts)%nat.
 Proof. exact (conj c03_facts_hold c03_facts_count). Qed.
 Print Assumptions C03_report_path_facts.
 
